@@ -41,7 +41,7 @@ GROUP_THEOREMS = {
     'cli': ['cli_out_name_is_model'],
     'group': ['group_place_is_model', 'group_place_keeps_keys_distinct'],
     'filter': ['key_regex_filter_is_model'],
-    'insertall': ['insert_leaves_other_unchanged', 'insert_on_model_extension', 'insert_treats_keys_independently'],
+    'insertall': ['insert_leaves_other_unchanged', 'insert_on_model_extension', 'insert_treats_keys_independently', 'insert_treats_keys_independently_on_model_extension'],
     'content': ['filter_meta_filters_every_valid_dictionary', 'filter_meta_is_model', 'clear_slice_meta_is_model', 'get_keys_is_model'],
     'orient': ['check_voxel_order_is_model'],
     'phoenix': ['parse_phoenix_line_is_model', 'parse_phoenix_prot_is_model'],
